@@ -350,7 +350,8 @@ def per_unknown_config(kind):
         fic = {u: OpaqueFn(f"qi{u}", [(dp - 1,)], (2,)) for u in uk} if kind == "nonstatio" else None
         bdim = {"u": jnp.s_[1:2], "v": jnp.s_[0:1]}
         oslice = {"u": jnp.s_[0:1], "v": jnp.s_[1:2]}
-        W = {"boundary_loss": {"u": 2.0, "v": 3.0}, "observations": {"u": 5.0, "v": 7.0},
+        # per-key dictionaries mixing Python integers and non-integral floats (the integer written first)
+        W = {"boundary_loss": {"u": 2, "v": 3.5}, "observations": {"u": 5, "v": 7.25},
              "initial_condition": {"u": 11.0, "v": 13.0}, "norm_loss": {"u": 17.0, "v": 19.0}}
         def bfun(u):
             return (lambda x: fb[u](x)) if kind == "statio" else (lambda t, x: fb[u](jnp.concatenate([t, x])))
@@ -365,7 +366,8 @@ def per_unknown_config(kind):
                       norm_int_length_dict={"u": 1.0, "v": None})
             if kind == "nonstatio":
                 kw["initial_condition_fun_dict"] = {u: (lambda x, u=u: fic[u](x)) for u in uk}
-            loss = SystemLossPDE(**kw)
+            with jax.ensure_compile_time_eval():       # built with concrete data, as users build it (outside any trace)
+                loss = SystemLossPDE(**kw)
             # symbolic normalisation data put in after construction (see Sys.weights for the reason)
             loss = put_at(lambda l: (l.u_constraints_dict["u"].norm_samples, l.u_constraints_dict["u"].norm_int_length), loss, (ns, L))
             obs = {u: {"pinn_in": oin[i], "val": oval[i], "eq_params": {}} for i, u in enumerate(uk)}
@@ -417,7 +419,7 @@ def per_unknown_config_ode():
         R = Opaque("RO", 1 + 2 * (2 + 2) + 1, 1)
         dyn = {"e1": SysODE(R=R, ukeys=("v", "u"))}
         oslice = {"v": jnp.s_[1:2], "u": jnp.s_[0:1]}
-        W = {"observations": {"v": 5.0, "u": 7.0}, "initial_condition": {"v": 11.0, "u": 13.0}}
+        W = {"observations": {"v": 5, "u": 7.25}, "initial_condition": {"v": 11.0, "u": 13.0}}
         def fn(th, a_, pts_, t0, u0, oin, oval):
             pd = ParamsDict(nn_params={u: nets[u].nn_params(th[i]) for i, u in enumerate(uk)}, eq_params={"a": a_})
             with jax.ensure_compile_time_eval():
